@@ -631,6 +631,8 @@ func (m *Model) eval(n *N, env *MEnv) res {
 			return norm(vBool(failed))
 		}
 		return m.giveUp("unknown try accessor")
+	case KNative:
+		return m.nativeCall(n, env)
 	case KPropC:
 		return m.propCall(n, env)
 	case KLitC, KVarC:
@@ -1025,6 +1027,77 @@ func (m *Model) litCall(n *N, env *MEnv) res {
 		return m.callAs(how, f.v, []Val{rv}, nil)
 	}
 	return m.chain(n.Chain, recv.v, chainArg, one)
+}
+
+// nativeCall models the higher-order props of Iterable (written in Pangaea, shipped with
+// the interpreter) over an array receiver: the callback is called once per element, in
+// order, and an error it raises ends the whole call.
+func (m *Model) nativeCall(n *N, env *MEnv) res {
+	recv := m.ev("native/recv", n.A, env)
+	if recv.c == cRaise {
+		return recv
+	}
+	if recv.v.T != "arr" {
+		return m.giveUp("native call on non-array")
+	}
+	f := m.ev("native/fn", n.B, env)
+	if f.c == cRaise {
+		return f
+	}
+	acc := vNil
+	if n.C != nil {
+		r := m.ev("native/kwarg", n.C, env)
+		if r.c == cRaise {
+			return r
+		}
+		acc = r.v
+	}
+	out := Val{T: "arr"}
+	all, any := true, false
+	for _, e := range recv.v.E {
+		var r res
+		if n.Str == "reduce" {
+			r = m.callAs("native/"+n.Str, f.v, []Val{acc, e}, nil)
+		} else {
+			r = m.callAs("native/"+n.Str, f.v, []Val{e}, nil)
+		}
+		if r.c == cRaise {
+			return r
+		}
+		if r.v.T == "opq" {
+			return m.giveUp("opaque callback result")
+		}
+		switch n.Str {
+		case "reduce":
+			acc = r.v
+		case "map":
+			if r.v.T != "nil" {
+				out.E = append(out.E, r.v)
+			}
+		default:
+			if r.v.T == "nil" && (n.Str == "all?" || n.Str == "any?") {
+				continue // `@^f` drops nil results before they are judged
+			}
+			t, ok := truthy(r.v)
+			if !ok {
+				return m.giveUp("truthiness of callback result")
+			}
+			if t == (n.Str == "select") && (n.Str == "select" || n.Str == "exclude") {
+				out.E = append(out.E, e)
+			}
+			all = all && t
+			any = any || t
+		}
+	}
+	switch n.Str {
+	case "reduce":
+		return norm(acc)
+	case "all?":
+		return norm(vBool(all))
+	case "any?":
+		return norm(vBool(any))
+	}
+	return norm(out)
 }
 
 // HasSlot reports whether the subtree contains a slot.
